@@ -125,7 +125,7 @@ def run(ctx):
     trap = T.mul(T.div(T.add(T.idx(K, ("slice", T.num(1), T.NONE, T.NONE)), T.idx(K, ("slice", T.NONE, T.num(-1), T.NONE))), T.num(2)), ds)
     ctx.clause("total turning = trapezoid integral of the curvature over arc length (scale free)")
     rules.decide_equal(ctx, "FORM", f"{tc.qualname} / FORM / sum((k[1:]+k[:-1])/2 * ds), ds = sqrt(dx^2+dy^2)", ctx.where(tc),
-                       stc.ret(), T.call("numpy.sum", (trap,)), "total curvature (normalized=False)")
+                       stc.ret(), T.call("sum", (trap,)), "total curvature (normalized=False)")
     scv = sym.summarize(repo, cv.qualname)
     gx, gy = T.call("numpy.gradient", (xs,)), T.call("numpy.gradient", (ys,))
     g2x, g2y = T.call("numpy.gradient", (gx,)), T.call("numpy.gradient", (gy,))
@@ -242,6 +242,8 @@ PINNED = [
     ("mapping_order over sorted ids", _P, "self.mapping_order = {key: enumid for enumid, key in enumerate(self.frame.cells)}", "self.mapping_order = {key: enumid for enumid, key in enumerate(sorted(self.frame.cells, reverse=True))}"),
 ]
 PRESERVING = [
+    ("trapezoid summed with the array method", _E, "total_curvature = np.sum((curvatures[1:] + curvatures[:-1])/2 * ds)", "total_curvature = ((curvatures[1:] + curvatures[:-1])/2 * ds).sum()"),
+    ("arc length through np.hypot", _E, "        ds = np.sqrt(np.diff(self.xs)**2 + np.diff(self.ys)**2)\n        total_curvature", "        ds = np.hypot(np.diff(self.xs), np.diff(self.ys))\n        total_curvature"),
     ("curvature with explicit sqrt cube", _E, "((dx_dt**2 + dy_dt**2)**1.5)", "(np.sqrt(dx_dt**2 + dy_dt**2)**3)"),
     ("positional normalized=False", _P, "curvature = big_edge.calculate_total_curvature(normalized=False)", "curvature = big_edge.calculate_total_curvature(False)"),
     ("trapezoid factor as 0.5", _E, "total_curvature = np.sum((curvatures[1:] + curvatures[:-1])/2 * ds)", "total_curvature = np.sum(0.5 * ds * (curvatures[:-1] + curvatures[1:]))"),
